@@ -265,21 +265,26 @@ def v_rubiks(inst: Any, p: Dict[str, Any], ctx: Dict[str, Any]) -> List[Problem]
 
 
 # --------------------------------------------------------------------------------------------- flat pack
-def _placements(block: np.ndarray, R: int, C: int) -> List[Tuple[int, ...]]:
-    """Cell sets (flat indices) of every placement the environment allows: k quarter turns of the 3x3
-    array, top-left corner at (row, col) with row <= R-3, col <= C-3 (docs/flat_pack.md, Action)."""
+def _placements(block: np.ndarray, R: int, C: int, relaxed: bool = False) -> List[Tuple[int, ...]]:
+    """Cell sets (flat indices) of the placements of a block.  Environment rule (relaxed=False): k quarter
+    turns of the 3x3 array, top-left corner at (row, col) with row <= R-3, col <= C-3 (docs/flat_pack.md,
+    Action), i.e. the whole 3x3 array inside the grid.  relaxed=True: only the block's non-zero cells have to
+    lie inside the grid (the array may overhang) - tiling 'on paper'."""
     out = set()
+    lo, hi_r, hi_c = (-2, R, C) if relaxed else (0, R - 2, C - 2)
     for k in range(4):
         arr = np.rot90(block, -k)
         cells = [(int(a), int(b)) for a, b in np.argwhere(arr != 0)]
-        for r in range(R - 2):
-            for c in range(C - 2):
-                out.add(tuple(sorted((r + dr) * C + (c + dc) for dr, dc in cells)))
+        for r in range(lo, hi_r):
+            for c in range(lo, hi_c):
+                pos = [(r + dr, c + dc) for dr, dc in cells]
+                if all(0 <= y < R and 0 <= x < C for y, x in pos):
+                    out.add(tuple(sorted(y * C + x for y, x in pos)))
     return sorted(out)
 
 
 def exact_cover(blocks: np.ndarray, R: int, C: int, node_cap: int,
-                windows: Optional[List[Optional[set]]] = None) -> Tuple[Optional[bool], int]:
+                windows: Optional[List[Optional[set]]] = None, relaxed: bool = False) -> Tuple[Optional[bool], int]:
     """Is there a placement of every block (environment placement rule) covering every grid cell exactly
     once?  Knuth's Algorithm X (columns: the R*C cells and the blocks; always branch on the column with the
     fewest candidates).  `windows[b]` optionally restricts block b to placements inside a set of cells
@@ -287,7 +292,7 @@ def exact_cover(blocks: np.ndarray, R: int, C: int, node_cap: int,
     B = len(blocks)
     Y: Dict[Any, List[Any]] = {}
     for b in range(B):
-        for cells in _placements(blocks[b], R, C):
+        for cells in _placements(blocks[b], R, C, relaxed):
             if windows is not None and windows[b] is not None and not set(cells) <= windows[b]:
                 continue
             Y[(b, cells)] = list(cells) + [("b", b)]
@@ -372,6 +377,7 @@ def v_flat_pack(inst: Any, p: Dict[str, Any], ctx: Dict[str, Any]) -> List[Probl
     # 1. quick certificate: every block inside the 3x3 window its number suggests (row-major numbering)
     ctx["count"]["flatpack_exact_cover_searches"] += 1
     ans = None
+    wins = None
     if all(v is not None and 1 <= v <= B for v in ids) and len(set(ids)) == B:
         wins = []
         for v in ids:
@@ -388,13 +394,32 @@ def v_flat_pack(inst: Any, p: Dict[str, Any], ctx: Dict[str, Any]) -> List[Probl
         cap = p.get("node_cap") or (400_000 if B <= 6 else (20_000 if ctx.get("tier") == "quick" else 100_000))
         ans, nodes = exact_cover(blocks, R, C, cap)
         ctx["count"]["flatpack_exact_cover_nodes"] += nodes
-        if ans is False:
-            out.append(("blocks-do-not-tile-grid",
-                        f"exhaustive exact-cover search ({nodes} nodes) finds no way to place all blocks on the "
-                        f"{R}x{C} grid under the environment's placement rule; blocks={blocks.tolist()}"))
-        elif ans is None:
+        if ans is None:
             ctx["count"]["flatpack_exact_cover_undecided"] += 1
             ctx["facts"]["exact_cover_undecided"] = ctx["facts"].get("exact_cover_undecided", 0) + 1
+        elif ans is False:
+            # 3. cause: do the blocks tile the grid 'on paper' (cells inside the grid, 3x3 array may overhang)?
+            #    first the generator's own layout (every block inside its own window), then the free search
+            ans2, n2 = (exact_cover(blocks, R, C, 20_000, wins, relaxed=True) if wins is not None else (None, 0))
+            if ans2 is not True:
+                ans2, n3 = exact_cover(blocks, R, C, cap, relaxed=True)
+                n2 += n3
+            ctx["count"]["flatpack_exact_cover_nodes"] += n2
+            if ans2 is True:
+                ctx["count"]["flatpack_tiling_only_with_overhanging_array"] += 1
+                out.append(("tiling-needs-placement-outside-3x3-window",
+                            f"exhaustive exact-cover search ({nodes} nodes) finds no way to place all blocks on the "
+                            f"{R}x{C} grid under the environment's placement rule (whole 3x3 array inside the grid), "
+                            f"although the blocks tile the grid when only their non-zero cells must lie inside it; "
+                            f"blocks={blocks.tolist()}"))
+            elif ans2 is False:
+                out.append(("blocks-do-not-tile-grid",
+                            f"exhaustive exact-cover search ({nodes}+{n2} nodes) finds no tiling of the {R}x{C} grid, "
+                            f"not even with freely translated blocks (3x3 array allowed to overhang); "
+                            f"blocks={blocks.tolist()}"))
+            else:
+                ctx["count"]["flatpack_exact_cover_undecided"] += 1
+                ctx["facts"]["exact_cover_undecided"] = ctx["facts"].get("exact_cover_undecided", 0) + 1
     am = np.asarray(inst.action_mask)
     if am.shape != (B, 4, R - 2, C - 2) or not am.all():
         out.append(("initial-action-mask", f"action_mask shape {am.shape} / not all True on the empty grid"))
